@@ -389,6 +389,158 @@ func c07Permutations(c *mc.Ctx) {
 	}
 }
 
+// commit sequences: ONE receiver (one session) is fed every sequence of up to four distinct commits of
+// a five-commit universe (root r, a(r), b(r), merge m(a,b), merge m2(b,a)) cut into packfiles at every
+// position - complete or not, ordered or not. Whatever arrives, no commit may be stored while one of
+// its parents (any of them, not just the first) is missing; a complete, parent-first
+// sequence must be accepted.
+var c07seqGraph = &model.Graph{Parents: [][]int{{}, {0}, {0}, {1, 2}, {2, 1}}}
+
+func c07Sequences(c *mc.Ctx) {
+	g := c07seqGraph
+	n := g.N()
+	ln := 1 + c.Choose(4)
+	var seq []int
+	used := 0
+	for i := 0; i < ln; i++ {
+		var opts []int
+		for j := 0; j < n; j++ {
+			if used&(1<<uint(j)) == 0 {
+				opts = append(opts, j)
+			}
+		}
+		j := opts[c.Choose(len(opts))]
+		used |= 1 << uint(j)
+		seq = append(seq, j)
+	}
+	cuts := c.Choose(1 << uint(ln-1)) // bit i: a new packfile starts after object i
+	preset := c.Choose(3)              // commits the destination already holds: none / r / r and a
+	tablePresent := c.ChooseDev(2) == 0
+	expectLast := c.ChooseDev(2) == 1
+	c.Shard()
+	pt := c12Pool()[2]
+	src := stores.NewMemStore()
+	copyTableTo(src, pt)
+	tables := make([][]byte, n)
+	for i := range tables {
+		tables[i] = pt.st.sum
+	}
+	times := make([]int, n)
+	for i := range times {
+		times[i] = i
+	}
+	sums, err := buildCommits(src, g, times, tables)
+	if err != nil {
+		panic(err)
+	}
+	raw := make([][]byte, n)
+	for i, sum := range sums {
+		com, err := objects.GetCommit(src, sum)
+		if err != nil {
+			panic(err)
+		}
+		var b bytes.Buffer
+		if _, err := com.WriteTo(&b); err != nil {
+			panic(err)
+		}
+		raw[i] = b.Bytes()
+	}
+	dst := stores.NewMemStore()
+	if tablePresent {
+		copyTableTo(dst, pt)
+	}
+	have := 0
+	{
+		for i := 0; i < preset; i++ {
+			if _, err := objects.SaveCommit(dst, raw[i]); err != nil {
+				panic(err)
+			}
+			have |= 1 << uint(i)
+		}
+	}
+	desc := fmt.Sprintf("universe r, a(r), b(r), m(a,b), m2(b,a) = nodes 0..4; destination holds nodes %v, table present=%v; commits sent in order %v, packfile cuts mask %b, expected=%v", model.Bits(uint64(have)), tablePresent, seq, cuts, expectLast)
+	c.Logf("%s", desc)
+	var expected [][]byte
+	if expectLast {
+		expected = [][]byte{sums[seq[len(seq)-1]]}
+	}
+	rec := apiutils.NewObjectReceiver(dst, expected, logr.Discard())
+	// the model: a commit is acceptable when its table and all its parents are at the destination
+	acceptable := true
+	model_ := have
+	var packs [][]int
+	cur := []int{}
+	for i, j := range seq {
+		cur = append(cur, j)
+		if i == len(seq)-1 || cuts&(1<<uint(i)) != 0 {
+			packs = append(packs, cur)
+			cur = []int{}
+		}
+	}
+	refused := false
+	for pi, pk := range packs {
+		var buf bytes.Buffer
+		pw, _ := packfile.NewPackfileWriter(&buf)
+		for _, j := range pk {
+			pw.WriteObject(packfile.ObjectCommit, raw[j])
+			ok := true // a commit may arrive without its table (depth-limited transfers do that)
+			for _, p := range g.Parents[j] {
+				if model_&(1<<uint(p)) == 0 {
+					ok = false
+				}
+			}
+			if ok && acceptable {
+				model_ |= 1 << uint(j)
+			} else {
+				acceptable = false // the first unacceptable commit: from here on only the invariant is judged
+			}
+		}
+		r, _ := packfile.NewPackfileReader(io.NopCloser(bytes.NewReader(buf.Bytes())))
+		var rerr error
+		if pn, st := mc.Try(func() { _, rerr = rec.Receive(r, nil) }); pn != nil {
+			c.Fail("transfer-panic", "Receive panicked on packfile %d: %v; %s\n%s", pi, pn, desc, firstLinesOf(st, 8))
+			return
+		}
+		if rerr != nil {
+			refused = true
+		}
+		if msg := model.CheckRepoObjects(dst, objects.BlockSize); msg != "" {
+			c.Fail("accepted-incomplete", "after packfile %d (error %v): %s; %s", pi, rerr, msg, desc)
+			return
+		}
+		for j := 0; j < n; j++ {
+			if objects.CommitExist(dst, sums[j]) {
+				for _, p := range g.Parents[j] {
+					if !objects.CommitExist(dst, sums[p]) {
+						c.Fail("accepted-incomplete", "after packfile %d (error %v) commit node %d is stored while its parent node %d is missing; %s", pi, rerr, j, p, desc)
+						return
+					}
+				}
+			}
+		}
+		if acceptable && rerr != nil {
+			c.Fail("refused-complete", "packfile %d of a complete, parent-first sequence was refused: %v; %s", pi, rerr, desc)
+			return
+		}
+	}
+	if acceptable {
+		for j := 0; j < n; j++ {
+			if (model_&(1<<uint(j)) != 0) != objects.CommitExist(dst, sums[j]) {
+				c.Fail("complete-not-stored", "after a complete, parent-first sequence commit node %d stored=%v, expected %v; %s", j, objects.CommitExist(dst, sums[j]), !objects.CommitExist(dst, sums[j]), desc)
+				return
+			}
+		}
+	} else if !refused {
+		c.Fail("incomplete-not-reported", "a sequence with a commit whose parent is missing was received without any error; %s", desc)
+		return
+	}
+	c.Outcome(fmt.Sprintf("acceptable=%v-len%d", acceptable, ln))
+	c.Nontrivial(desc)
+	if c.WantSample() && !acceptable && ln == 3 {
+		c.Sample(map[string]any{"case": desc})
+	}
+}
+
 func init() {
 	register(&mc.Check{
 		ID:    "C07",
@@ -396,11 +548,12 @@ func init() {
 		Rule: "every commit fragment of 1..3 commits (chain, fork, merge, several roots) x every assignment of tables from {300 rows, the same + 1 trailing row (shares a block), 2 rows; as deviations: the 300 rows under a two-column key, 3 rows under a composite key not in column order, the 300 rows with a renamed column (same blocks and block indices, another table object)} x every ancestor-closed set of commits already at the destination x every set of tables the destination already holds x every subset of the destination's full commits named as common, completely; " +
 			"crossed with up to d deviations over: max packfile size {default,1,64,4096}, a stray block present without its table, a table object present without its blocks and indices, tables requested only for the newest commit. The real ObjectSender writes packfiles, the real PackfileReader and ObjectReceiver consume them; " +
 			"source and destination stores are compared (commits, tables, blocks, block indices byte-identical; profile present; structural oracle; DiffTables(source, received) empty), and the persisted object order must put blocks before their table, the table before its commit and parents before children. " +
-			"Plus every permutation of the (up to 7) objects of a 2-commit transfer fed one by one to a fresh receiver: no commit stored without its parent, no table stored unless complete. non-trivial = at least 2 objects transferred; distinct by case description",
+			"Plus every permutation of the (up to 7) objects of a 2-commit transfer fed one by one to a fresh receiver: no commit stored without its parent, no table stored unless complete. Plus one receiver (one session) fed every sequence of up to four distinct commits of {r, a(r), b(r), m(a,b), m2(b,a)} cut into packfiles at every position, the destination holding none / r / r and a, with or without the table, with or without an expected-commit list: no commit is ever stored while ANY of its parents is missing, an incomplete sequence is reported, a complete parent-first one is accepted. non-trivial = at least 2 objects transferred; distinct by case description",
 		Assumptions: []string{"only commits the destination holds together with their table are named as common (the sender's precondition, which the client side of the protocol establishes; shallow destinations are exercised end-to-end in C09)", "at most 3 commits and 3 tables per transfer"},
 		Harnesses: []*mc.Harness{
-			{Name: "transfers", Body: c07Body, DevBound: map[string]int{"quick": 1, "thorough": 3}, Budget: map[string]time.Duration{"quick": 60 * time.Second, "thorough": 12 * time.Minute}},
+			{Name: "transfers", Body: c07Body, DevBound: map[string]int{"quick": 1, "thorough": 3}, Budget: map[string]time.Duration{"quick": 150 * time.Second, "thorough": 12 * time.Minute}},
 			{Name: "object-permutations", Body: c07Permutations, Budget: map[string]time.Duration{"quick": 60 * time.Second, "thorough": 5 * time.Minute}},
+			{Name: "commit-sequences", Body: c07Sequences, DevBound: map[string]int{"quick": 1, "thorough": 2}, Budget: map[string]time.Duration{"quick": 60 * time.Second, "thorough": 5 * time.Minute}},
 		},
 	})
 }
